@@ -336,6 +336,7 @@ struct DirScript {
     calls: u32,
     filled_window: bool,
 }
+static mut ALLOW_FILL: bool = false;
 static mut DS: DirScript = DirScript { total: 0, given: 0, names: [[0; 4]; 4], types: [0; 4], calls: 0, filled_window: false };
 fn ds() -> &'static mut DirScript {
     unsafe { &mut *core::ptr::addr_of_mut!(DS) }
@@ -367,7 +368,7 @@ fn dents_hook(_k: &mut K, n: usize, a: &[usize; 6]) -> Option<usize> {
         // the caller's window (a batch that fills the 512-byte buffer exactly)
         if i + 1 == batch {
             let fill_window: bool = kani::any();
-            if fill_window {
+            if fill_window && unsafe { ALLOW_FILL } {
                 reclen = cap - off;
                 d.filled_window = true;
             }
@@ -391,10 +392,26 @@ fn dents_hook(_k: &mut K, n: usize, a: &[usize; 6]) -> Option<usize> {
     d.given += batch;
     Some(off)
 }
-// @ob C14 quick read_dir_iteration fns=Directory::read,ReadDir::next,Dirent::try_from_bytes,DirEntry::file_unix_name,DirEntry::file_type,DirEntry::is_relative_reference bound="0..=4 entries with names of 1..=3 arbitrary bytes and arbitrary d_type, delivered in batches of <=3 per getdents64 call" timeout=1500
+// @ob C14 quick read_dir_iteration fns=Directory::read,ReadDir::next,Dirent::try_from_bytes,DirEntry::file_unix_name,DirEntry::file_type,DirEntry::is_relative_reference bound="0..=3 entries with names of 1..=3 arbitrary bytes and arbitrary d_type, delivered in batches of <=3 per getdents64 call" timeout=1500
 #[kani::proof]
 #[kani::unwind(10)]
 fn read_dir_iteration() {
+    read_dir_iteration_n(3, false)
+}
+// @ob C14 quick read_dir_window_fill fns=ReadDir::next,Dirent::try_from_bytes bound="0..=2 entries; the last record of a batch may extend to the very end of the 512-byte window" timeout=1500
+#[kani::proof]
+#[kani::unwind(10)]
+fn read_dir_window_fill() {
+    read_dir_iteration_n(2, true)
+}
+// @ob C14 thorough read_dir_iteration_4 fns=Directory::read,ReadDir::next,Dirent::try_from_bytes bound="0..=4 entries, window-filling batches allowed" timeout=3400
+#[kani::proof]
+#[kani::unwind(10)]
+fn read_dir_iteration_4() {
+    read_dir_iteration_n(4, true)
+}
+fn read_dir_iteration_n(max_total: usize, allow_fill: bool) {
+    unsafe { ALLOW_FILL = allow_fill };
     let k = ks();
     k.model_no_faults();
     k.hook = Some(dents_hook);
@@ -402,7 +419,7 @@ fn read_dir_iteration() {
     k.fd_open |= 1 << 9;
     let d = ds();
     let total: usize = kani::any();
-    kani::assume(total <= 4);
+    kani::assume(total <= max_total);
     d.total = total;
     let mut i = 0;
     while i < 4 {
@@ -445,9 +462,9 @@ fn read_dir_iteration() {
         assert!((ty == tiny_std::fs::FileType::Symlink) == (d.types[seen] == 10), "d_type DT_LNK <-> Symlink");
         seen += 1;
     }
-    kani::cover!(total == 4 && d.calls >= 3, "four entries over at least two refills");
+    kani::cover!(total == max_total && d.calls >= 3, "the largest number of entries over at least two refills");
     kani::cover!(total == 0, "empty directory");
-    kani::cover!(d.filled_window && total >= 2, "a batch that fills the 512-byte window exactly");
+    kani::cover!(!allow_fill || (d.filled_window && total >= 2), "a batch that fills the 512-byte window exactly (where allowed)");
     assert!(seen == total, "iteration yields every entry exactly once and ends at EOF");
     core::mem::forget(dir);
 }
